@@ -5,7 +5,7 @@
 //! probes the boundary (3 below, at, 5 above, cross probes with the other acquiring calls, hysteresis after
 //! releasing a few handles), and then lets the object die and checks it is finalized / dropped / freed once.
 //!
-//! argv: [--only <scenario id>] [--shard i --nshards n] [--reduced] [--stride n] [--list] [--noop]
+//! argv: [--only <scenario id>] [--shard i --nshards n] [--reduced] [--stride n] [--timing] [--list] [--noop]
 use std::cell::{Cell, RefCell};
 use std::panic::{catch_unwind, AssertUnwindSafe};
 
